@@ -197,6 +197,11 @@ func CheckLine(data string) []Finding {
 	if len(data) > 510 {
 		fs = append(fs, Finding{"C15", "line:too-long", fmt.Sprintf("line of %d bytes: %.80q", len(data), data)})
 	}
+	// what the client receives went through JSON: every byte that is not part of a valid UTF-8
+	// sequence arrives as U+FFFD (three bytes)
+	if t := strings.ToValidUTF8(data, "\uFFFD"); t != data && len(t) > 510 && len(data) <= 510 {
+		fs = append(fs, Finding{"C15", "line:too-long-after-transcoding", fmt.Sprintf("line of %d bytes holds invalid UTF-8 and reaches the client as %d bytes: %.80q", len(data), len(t), data)})
+	}
 	if i := strings.IndexAny(data, "\r\n\x00"); i >= 0 {
 		fs = append(fs, Finding{"C15", fmt.Sprintf("line:control-byte-%#02x", data[i]), fmt.Sprintf("byte %#02x at offset %d in %.120q", data[i], i, data)})
 	}
